@@ -53,3 +53,15 @@ def payload_eq(impl_graph, model_pair):
     p = gen.graph_payload(impl_graph)
     idx = p.pop("_index")
     return wire.deep_eq(p, model_pair[0]) and wire.deep_eq(idx, model_pair[1])
+
+
+def still_valid(g):
+    """a graph derived by in_generations can be invalid on binary64 (known finding F12: two times collapse, overflow,
+    underflow); the properties about valid graphs do not speak of it"""
+    try:
+        with warnings.catch_warnings():
+            warnings.simplefilter("ignore")
+            demes.Graph.fromdict(g.asdict())
+        return True
+    except Exception:
+        return False
